@@ -25,6 +25,22 @@ fn push_log(text: String) {
     }
 }
 
+/// the write end handed to the instance: says when - and on which thread, inside a delivery or not - it is let go
+#[derive(Debug)]
+struct WEnd(UnixStream);
+
+impl AsRawFd for WEnd {
+    fn as_raw_fd(&self) -> i32 {
+        self.0.as_raw_fd()
+    }
+}
+
+impl Drop for WEnd {
+    fn drop(&mut self) {
+        push_log("drop-write-end".into());
+    }
+}
+
 fn readable(fd: i32) -> bool {
     let mut b = [0u8; 1];
     unsafe { libc::recv(fd, b.as_mut_ptr() as *mut libc::c_void, 1, libc::MSG_PEEK | libc::MSG_DONTWAIT) > 0 }
@@ -84,6 +100,22 @@ fn do_op(text: &str) {
         ["close"] => {
             let h = HANDLE.lock().unwrap().as_ref().unwrap().clone();
             h.close();
+            push_log("ret done".into());
+        }
+        ["dropall"] => {
+            // every owner goes away - the instance, its batches, the handle - while deliveries may be in flight
+            // on other threads: the removal of the instance's actions. A scheduling point of its own first, so
+            // that `delay` can place the drop anywhere in the other threads' operations.
+            {
+                let _hg = HarnessGuard::new();
+                sched::sched().unwrap().point_named("dropall", String::new());
+            }
+            let c = CONSUMER.lock().unwrap().take();
+            let b: Vec<_> = BATCHES.lock().unwrap().drain(..).collect();
+            let h = HANDLE.lock().unwrap().take();
+            drop(b);
+            drop(c);
+            drop(h);
             push_log("ret done".into());
         }
         ["add", sig] => {
@@ -169,6 +201,9 @@ pub fn main() -> i32 {
     let mut replay: Option<Vec<usize>> = None;
     let mut maxsteps = 20000usize;
     let mut delays: Vec<(usize, usize)> = Vec::new();
+    // `holdat t<k> <j> <n>`: once thread <k> has taken <j> own steps it is not scheduled before global step <n>
+    let mut holds: Vec<(usize, usize, usize)> = Vec::new();
+    let mut own: std::collections::HashMap<usize, usize> = std::collections::HashMap::new();
     let mut batches = 0usize;
     for l in read_lines() {
         let w: Vec<&str> = l.split_whitespace().collect();
@@ -182,6 +217,7 @@ pub fn main() -> i32 {
             ["schedule", rest @ ..] => replay = Some(rest.iter().map(|x| x.parse().unwrap()).collect()),
             // `delay t<k> <n>`: thread <k> is not scheduled during the first <n> steps (unless nothing else can run)
             ["delay", t, n] => delays.push((t[1..].parse().unwrap(), n.parse().unwrap())),
+            ["holdat", t, j, n] => holds.push((t[1..].parse().unwrap(), j.parse().unwrap(), n.parse().unwrap())),
             [t, rest @ ..] if t.starts_with('t') => {
                 let k: usize = t[1..].parse().unwrap();
                 while scripts.len() <= k { scripts.push(Vec::new()); }
@@ -206,7 +242,7 @@ pub fn main() -> i32 {
         }
         n
     };
-    let delivery = SignalDelivery::with_pipe(read, write, SignalOnly::default(), watch.iter()).unwrap();
+    let delivery = SignalDelivery::with_pipe(read, WEnd(write), SignalOnly::default(), watch.iter()).unwrap();
     *HANDLE.lock().unwrap() = Some(delivery.handle());
     let mut prefill = 0usize;
     {
@@ -267,10 +303,15 @@ pub fn main() -> i32 {
             if let Some(i) = enabled.iter().position(|&t| g.threads[t].pending.as_ref().map(|p| p.name == "start").unwrap_or(false)) {
                 return i;
             }
-            if replay.is_none() && !delays.is_empty() {
-                let ok: Vec<usize> = (0..enabled.len()).filter(|&i| !delays.iter().any(|&(t, n)| t == enabled[i] && step < n)).collect();
+            if replay.is_none() && (!delays.is_empty() || !holds.is_empty()) {
+                let ok: Vec<usize> = (0..enabled.len()).filter(|&i| {
+                    !delays.iter().any(|&(t, n)| t == enabled[i] && step < n)
+                        && !holds.iter().any(|&(t, j, n)| t == enabled[i] && own.get(&t).copied().unwrap_or(0) == j && step < n)
+                }).collect();
                 if !ok.is_empty() {
-                    return ok[rng.below(ok.len())];
+                    let pick = ok[rng.below(ok.len())];
+                    *own.entry(enabled[pick]).or_insert(0) += 1;
+                    return pick;
                 }
             }
             match &replay {
@@ -279,7 +320,11 @@ pub fn main() -> i32 {
                     pos += 1;
                     want.and_then(|w| enabled.iter().position(|&t| t == w)).unwrap_or(0)
                 }
-                None => rng.below(enabled.len()),
+                None => {
+                    let pick = rng.below(enabled.len());
+                    *own.entry(enabled[pick]).or_insert(0) += 1;
+                    pick
+                }
             }
         },
         maxsteps,
